@@ -42,7 +42,7 @@ type World struct {
 	RepoDir     string
 	impls       map[string][]*ssa.Function // interface method key -> implementations in package
 	addrTaken   map[string][]*ssa.Function // signature string -> functions used as values
-	pools       map[*ssa.Global]*poolInfo
+	pools       map[interface{}]*poolInfo
 }
 
 func displayName(f *ssa.Function) string {
